@@ -433,6 +433,20 @@ pub fn run(ctx: &Ctx) -> Report {
             }
         }
     }
+    // the one directive with a variable-length part: `%{xattr:NAME}` with names of every length around
+    // the powers of two (a bound borrowed from XATTR_NAME_MAX or a narrowed length field would cut them)
+    for n in [1usize, 2, 15, 16, 17, 31, 32, 33, 63, 64, 65, 127, 128, 129, 254, 255, 256, 257, 511, 512, 513, 1023, 1024, 1025, 4095, 4096, 4097, 65535, 65536, 65537] {
+        for unit in ["a", "Zq", "userTrusted"] {
+            let mut name = unit.repeat(n / unit.len());
+            while name.len() < n {
+                name.push('x');
+            }
+            for s in [format!("%{{xattr:{name}}}"), format!("x%{{xattr:{name}}}\\n"), format!("%{{xattr:{name}}}%{{xattr:{name}}}"), format!("%p %{{xattr:{name}}} %{{fid}}\\n")] {
+                let v = judge_quoted(&s);
+                stl.record(&v, stable_hash(&s), true, || case_json(&s));
+            }
+        }
+    }
     stl.samples.clear();
     total.merge(stl);
 
